@@ -408,7 +408,22 @@ def eval_case(case: dict, base: dict, base_case: dict, slot_target: dict, evalua
             try:
                 with warnings.catch_warnings():
                     warnings.simplefilter("ignore")
-                    fill_item(model.dataset[lab], model, params)
+                    filled = fill_item(model.dataset[lab], model, params)
+                # every reference resolves in the registry of ITS kind (labels are unique per kind only)
+                ditem = next((it for it in case["items"] if it["kind"] == "dataset" and it["label"] == lab), None)
+                for sl in (ditem["slots"] if ditem else []):
+                    reg = getattr(model, sl["target"], None)
+                    if not isinstance(reg, dict):
+                        continue
+                    attr = getattr(filled, sl["name"], None)
+                    vals = list(attr.values()) if isinstance(attr, dict) else (list(attr) if isinstance(attr, (list, tuple)) else [attr])
+                    for ref, v in zip(sl["vals"], vals):
+                        if isinstance(v, (str, type(None))) or ref not in reg:
+                            continue
+                        if type(v) is not type(reg[ref]) or getattr(v, "label", ref) != ref:
+                            findings.append((f"wrong-item-after-valid fill_item dataset.{sl['name']}",
+                                             f"fill_item(dataset {lab!r}): reference {sl['name']}={ref!r} (a {sl['target']}) was filled with a "
+                                             f"{type(v).__name__} labelled {getattr(v, 'label', '?')!r} instead of the {type(reg[ref]).__name__} of that label"))
             except Exception as ex:  # noqa: BLE001
                 if _is_lookup_error(ex, labels):
                     findings.append((f"lookup-error-after-valid fill_item {type(ex).__name__}@{_site(ex)}",
